@@ -224,10 +224,19 @@ func descBlockShared(p aProfile, b int) bool {
 	return false
 }
 
-func buildProfile(p aProfile, variant int) []byte {
+// bigBlockSizes: sizes of a large tag (a LUT, say) next to the description - more than 64 KiB of tag
+// data, so that whatever buffers the reader grows while taking the tag data in are grown (round 11)
+var bigBlockSizes = []int{70000, 131080, 300000, 1<<20 + 7}
+
+func buildProfile(p aProfile, variant int) []byte { return buildProfileBig(p, variant, 0) }
+
+func buildProfileBig(p aProfile, variant int, big int) []byte {
 	blocks := make([]gen.ICCBlock, p.NBlocks)
 	for b := 0; b < p.NBlocks; b++ {
 		blocks[b] = gen.ICCBlock{Data: gen.Payload(20+17*b+variant, uint32(b), false), Gap: p.Gaps[b%len(p.Gaps)]}
+	}
+	if big > 0 && p.NBlocks > 1 { // block 0 is the description's; where it lies relative to the large one is the layout order's choice
+		blocks[p.NBlocks-1].Data = gen.Payload(big, uint32(big), false)
 	}
 	hasDesc := false
 	for _, t := range p.Tags {
@@ -335,7 +344,11 @@ func iccdescCmd(args []string) error {
 			firstErr = err
 			return
 		}
-		prof := buildProfile(p, i%3)
+		big := 0
+		if i%5 == 2 {
+			big = bigBlockSizes[(i/5)%len(bigBlockSizes)]
+		}
+		prof := buildProfileBig(p, i%3, big)
 		emit := func(via string, pr *icc.Profile, rerr error) {
 			ev := map[string]interface{}{"id": i + 1, "via": via, "profile": c.ProfileRaw, "read_ok": rerr == nil, "len": len(prof)}
 			if rerr != nil {
@@ -392,7 +405,11 @@ func iccdescCmd(args []string) error {
 		case 1:
 			loader = "jpeg"
 			segs := []gen.JSeg{gen.SOI()}
-			parts := gen.SplitICC(prof, 1+i%3)
+			nparts := 1 + i%3
+			if need := (len(prof) + 59999) / 60000; need > nparts {
+				nparts = need
+			}
+			parts := gen.SplitICC(prof, nparts)
 			for k, part := range parts {
 				segs = append(segs, gen.ICCSeg(byte(k+1), byte(len(parts)), part))
 			}
